@@ -202,7 +202,7 @@ func (fr *Frame) instr(in ssa.Instruction) {
 				rv.Elems = append(rv.Elems, fr.val(r))
 			}
 		}
-		fr.rets = append(fr.rets, retRec{fr.curReach, rv, fr.heap, x.Pos(), fr.curBlock.Index})
+		fr.rets = append(fr.rets, retRec{len(vc.assumes), fr.curReach, rv, fr.heap, x.Pos(), fr.curBlock.Index})
 	default:
 		vc.warn("unsupported instruction %T in %s", in, fnName(fr.fn))
 		if v, ok := in.(ssa.Value); ok {
@@ -269,6 +269,26 @@ func (fr *Frame) load(addr Val, pos token.Pos, hint string) Val {
 		return vc.freshVal(hint, addr.Typ, fr.heap)
 	}
 	el := pt.Elem()
+	if addr.Glob != nil && vc.e.roGlobals[addr.Glob] {
+		// a package-level variable that is written only by package initialisation: a constant
+		n := "gval$" + sanitize(normName(addr.Glob.String()))
+		if _, ok := vc.defIdx[n]; !ok {
+			if _, isStruct := el.Underlying().(*types.Struct); !isStruct {
+				d := &Def{Name: n, Sort: vc.sortOf(el)}
+				d.Rng = vc.wf(n, el, "")
+				if vc.e.nonNilGlobal[addr.Glob] {
+					d.Rng = sAnd(d.Rng, sNot(sEq(sApp("i-tag", n), "0")))
+				}
+				vc.defs = append(vc.defs, d)
+				vc.defIdx[n] = d
+			}
+		}
+		if _, ok := vc.defIdx[n]; ok {
+			r := Val{T: n, Typ: el}
+			vc.attachPtrLoc(&r)
+			return r
+		}
+	}
 	if addr.Loc != nil {
 		if addr.Loc.Kind == locCell {
 			fr.nonNil(addr, pos)
@@ -395,7 +415,10 @@ func (fr *Frame) doMakeInterface(x *ssa.MakeInterface) {
 		}
 		payload = ref
 	}
-	fr.setNamed(x, Val{T: sApp("mk-iface", tag, payload), Typ: x.Type()})
+	iv := fr.vc.namedVal(x.Name(), Val{T: sApp("mk-iface", tag, payload), Typ: x.Type()})
+	boxed := v
+	iv.Boxed = &boxed
+	fr.vals[x] = iv
 }
 
 func (fr *Frame) doTypeAssert(x *ssa.TypeAssert) {
